@@ -44,6 +44,8 @@ func (l *local) flush() {
 // foldTwin returns a string that is equal to s under Unicode case folding but is another string with, in general,
 // another verdict: ASCII letters change case ("xn--" is an ACE prefix, "XN--" is not), k and s become the Kelvin sign
 // and the long s (non-ASCII: the label is converted).
+var kelvinLongS = strings.NewReplacer("k", "\u212a", "K", "\u212a", "s", "\u017f", "S", "\u017f")
+
 func foldTwin(s string, n int64) string {
 	b := []byte(s)
 	for i, c := range b {
@@ -53,7 +55,7 @@ func foldTwin(s string, n int64) string {
 	}
 	t := string(b)
 	if n%2 == 1 {
-		t = strings.NewReplacer("k", "\u212a", "K", "\u212a", "s", "\u017f", "S", "\u017f").Replace(s)
+		t = kelvinLongS.Replace(s)
 	}
 	return t
 }
